@@ -91,6 +91,30 @@ ADDENDA = {
   "C19": " After seeding: TableLookup .table/.cycles re-assigned after playing, derived tables and normalize(), modcount_long (modulo/step ratios 700-4097 over thousands of samples).",
   "C20": " After seeding: one maverage strategy object on two signals read alternately, envelope cut-offs at the ends of the range given by position or keyword, unwrap with every combination of defaulted parameters.",
 }
+
+# fourth seeding round (DESIGN 7.3)
+ADDENDA4 = {
+  "C01": " Round 4: reading on after a caught element error (later positions still op(a_i, b_i)); 2600-12000 operators deep.",
+  "C02": " Round 4: re-iterable counting sources that are not iterators, reads counted over all readers a stage opens.",
+  "C03": " Round 4: counts 1-3 ulps from halves / integers judged on the exact value of the float; count box behind filter / map stages.",
+  "C04": " Round 4: numerator derived from the denominator with a given memory; long_feedback (orders 40-2000, ramped memories).",
+  "C05": " Round 4: high_powers (|n| 5..16 of 1-3-term filters against n-fold application and products).",
+  "C06": " Round 4: ControlStream coefficients changed between outputs, numerators with no term, given memories, filter copies, null left operand of a sum.",
+  "C07": " Round 4: ==/!=/hash/dict-key coherence on long polynomials reached in different term-creation orders.",
+  "C08": " Round 4: lists changed in place between blocks (mutated), user Stream subclasses with their own __iter__, __getitem__-only sequences.",
+  "C09": " Round 4: callable+iterable windows and the window dictionaries themselves, overlap_add.default set before / after build, falsy stage results (stft_stage_values).",
+  "C10": " Round 4: long_blocks (300-9000 samples), held_results (results judged again after later calls).",
+  "C11": " Round 4: reflection vectors cancelling a lag with the default order; stable_float (float denominators of degree up to 20 with non-unit gains).",
+  "C12": " Round 4: null_pole (exact nulls before exact poles at DC in cascades / parallel branches, nan propagation).",
+  "C13": " Round 4: comb delays to 130 with a caller-given initial state.",
+  "C14": " Round 4: earlier results of the same calls changed in place before every check.",
+  "C15": " Round 4: attributes replaced by hand followed by the loss of the item; small name pools.",
+  "C16": " Round 4: summation order asserted with exact non-commutative + (ordered clause).",
+  "C17": " Round 4: nchannels alias checked against what the opened device takes (new repaired defect), refused play() calls in histories.",
+  "C18": " Round 4: WAV handed over as positioned file object / BytesIO inside containers with decoys.",
+  "C19": " Round 4: karplus lags below two samples (tap on the current sample).",
+  "C20": " Round 4: long_inputs (1000-12000 samples, windows to 200), unwrap_wide (jumps beyond 2**53, neighbours of half-step ties).",
+}
 NOT_BUILT = "check not built yet in this session (planned in DESIGN.md section 3); no claim is made until it is"
 
 def main():
@@ -106,7 +130,7 @@ def main():
       "evidence_file": "/verif/evidence/%s.json" % pid,
       "replay_cmd_template": "./check %s --replay {path}" % pid,
       "engine": "pbt-runner",
-      "level_claimed": {"category": "exploration", "text": text + ADDENDA.get(pid, ""), "design_ref": "DESIGN.md section " + ref},
+      "level_claimed": {"category": "exploration", "text": text + ADDENDA.get(pid, "") + ADDENDA4.get(pid, ""), "design_ref": "DESIGN.md section " + ref},
       "level_note": note,
       "technique": tech,
     })
